@@ -1454,7 +1454,7 @@ func Emit(repo string) {
 	recovered := false
 	if fd := findFunc(ParseDir(repo+"/x/evm"), "GetSigners", "MsgEthereumTx"); fd != nil {
 		body := Nospace(fd.Body)
-		recovered = strings.Contains(body, "msg.GetSender(") && !strings.Contains(body, "From")
+		recovered = strings.Contains(body, ".GetSender(") && !strings.Contains(body, "From")
 	}
 	fmt.Printf("Definition eth_signers_from_signature : bool := %s.\n", CoqBool(recovered))
 
